@@ -77,7 +77,6 @@ package silence
 //@   loop 2 invariant forall i int, j int :: 0 <= i && i < len(matcherSet) && 0 <= j && j < len(s.MatcherSets[i].Matchers) ==> compiledAs(deref(matcherSet[i])[j], s.MatcherSets[i].Matchers[j])
 //@   loop 2 invariant forall j int :: 0 <= j && j <= rangeindex ==> compiledAs(matchers[j], s.MatcherSets[rangeindex1 + 1].Matchers[j])
 //@   assigns c[*]
-//@   nosafe
 
 // C12: which edits may keep the id. Equal matcher sets; an active silence keeps its start (to the second) and does not
 // end in the past; a pending one does not start in the past; an expired one is never updated.
@@ -315,7 +314,6 @@ package silence
 //@   ensures [sync-first] called("os.File).Close") ==> called("os.File).Sync") && ret("os.File).Sync") == nil
 //@ func openReplace
 //@   props C11
-//@   nosafe
 //@   ensures [fresh-truncated-temp-file] result1 == nil ==> called("os.Create") && ret1("os.Create") == nil && result0 != nil && result0.File == ret("os.Create") && result0.filename == filename
 //@   ensures [target-untouched] !called("os.Rename") && !called("os.Remove")
 //@   ensures [error-means-nothing] result1 != nil ==> result0 == nil
@@ -638,7 +636,6 @@ package silence
 // output; an encoding error aborts with that error and no partial output.
 //@ func (state).MarshalBinary
 //@   props C09 C11 C19
-//@   nosafe
 //@   at call marshalMeshSilence assert [a-stored-silence] exists k string :: (k in s) && s[k] == arg0
 //@   at call Buffer).Write assert [append-the-encoding] arg1 == ret("marshalMeshSilence") && ret1("marshalMeshSilence") == nil
 //@   ensures [every-silence-encoded-once] result1 == nil ==> count("marshalMeshSilence") == len(s) && count("Buffer).Write") == len(s)
